@@ -11,7 +11,6 @@ use anyhow::bail;
 use crate::config::OutputStreamControl;
 use crate::diff::DiffLine;
 use crate::formatln;
-use crate::lossy_string;
 use crate::newline::BytesNewline;
 use crate::newline::SplitLinesByNewline;
 use crate::newline::StringNewline;
@@ -26,16 +25,13 @@ pub(super) trait OutcomeTestGenerator {
 
 impl Outcome {
     fn generate_testcase_expression(&self) -> String {
-        // prepend by command
-        let expression_lines = self.testcase.shell_expression.as_bytes();
-        let expression_lines = expression_lines.split_at_newline();
-        let mut generated = format!("$ {}", lossy_string!(&expression_lines[0].assure_newline()));
-        expression_lines.iter().skip(1).for_each(|line| {
-            generated.push_str(&format!(
-                "> {}",
-                lossy_string!(&(&line[..]).assure_newline())
-            ))
-        });
+        // prepend by command: every line of the expression, also an empty
+        // one (the only line, or the last), is a line of the document
+        let mut expression_lines = self.testcase.shell_expression.split('\n');
+        let mut generated = formatln!("$ {}", expression_lines.next().unwrap_or_default());
+        for line in expression_lines {
+            generated.push_str(&formatln!("> {}", line));
+        }
         generated
     }
 
